@@ -283,7 +283,7 @@ pub fn main() {
     ck.assume("committer times >= 2^34 cannot be represented by the file format: git stores them modulo 2^34, and the comparison is done modulo 2^34 for that (labelled) class only");
     ck.assume("generation() is compared with the topological level (1 + max over parents), which git stores in CDAT for both generation-data versions");
 
-    ck.sub("graph", SubCfg::new(700, 20_000).max_len(3000).max_shrink(60), |t, c| {
+    ck.sub("graph", SubCfg::new(500, 15_000).max_len(3000).max_shrink(60), |t, c| {
         let w = gen_world(t);
         c.key(&w);
         c.sample_with(|| render(&w));
